@@ -63,6 +63,31 @@ def api_surface(rep, rng, tier):
     """The rest of the Polygon API: resample, buffer, contains_points(index / radius), on_boundary, the from_* class
     methods with three operands, operator overloads, name / mesh-flag propagation."""
     import tdgl
+    # the geometry helpers the shapes are usually built with: rotate(coords, degrees) is a counter-clockwise rotation about the
+    # origin, box / ellipse with angle= and center= are "translate to the centre, then rotate about (0, 0)" as documented,
+    # and agree with Polygon.rotate of the unrotated shape
+    from tdgl import geometry as geo
+    for gi in range(6 if tier == "quick" else 40):
+        deg = rng.choice([30.0, -75.0, 90.0, 123.4, 200.0, 5.0])
+        c_, s_ = np.cos(np.radians(deg)), np.sin(np.radians(deg))
+        R = np.array([[c_, -s_], [s_, c_]])
+        Pg = np.array([[rng.uniform(-3, 3), rng.uniform(-3, 3)] for _ in range(7)])
+        gcase = {"geometry_case": gi, "degrees": deg}
+        if np.max(np.abs(geo.rotate(Pg, deg) - Pg @ R.T)) > 1e-12:
+            rep.violation("tdgl.geometry.rotate is not the counter-clockwise rotation by the given angle", gcase)
+        cx, cy = rng.uniform(-2, 2), rng.uniform(-2, 2)
+        for nm_, plain, turned in (("box", geo.box(2.0, 1.0, points=21, center=(cx, cy)), geo.box(2.0, 1.0, points=21, center=(cx, cy), angle=deg)),
+                                   ("ellipse", geo.ellipse(2.0, 1.0, points=24, center=(cx, cy)), geo.ellipse(2.0, 1.0, points=24, center=(cx, cy), angle=deg))):
+            if np.asarray(turned).shape != np.asarray(plain).shape or np.max(np.abs(np.asarray(turned) - np.asarray(plain) @ R.T)) > 1e-12:
+                rep.violation(f"geometry.{nm_}(..., angle=a) is not the shape rotated counter-clockwise by a about the origin", gcase)
+            pa = tdgl.Polygon(nm_, points=plain).rotate(deg)
+            pb = tdgl.Polygon(nm_, points=turned)
+            Q = np.array([[rng.uniform(-4, 4), rng.uniform(-4, 4)] for _ in range(200)])
+            far = np.minimum(seg_dist(pa.points, Q), seg_dist(pb.points, Q)) > 1e-6
+            if abs(pa.area - pb.area) > 1e-9 or not np.array_equal(pa.contains_points(Q[far]), pb.contains_points(Q[far])):
+                rep.violation(f"a {nm_} built with angle=a is not the {nm_} rotated with Polygon.rotate(a)", gcase)
+        rep.count(1)
+        rep.nontrivial(("geometry", deg))
     n = 12 if tier == "quick" else 80
     for ci in range(n):
         A, _ = rand_shape(rng)
